@@ -69,7 +69,47 @@ fn sample_conc(case: &ConcCase, r: &RunResult) -> Value {
 }
 
 fn mine(prop: &str, r: &RunResult) -> Vec<Finding> {
-	r.findings.iter().filter(|f| f.prop == prop || f.prop == "PANIC").cloned().collect()
+	let mut v: Vec<Finding> = r.findings.iter().filter(|f| f.prop == prop || f.prop == "PANIC").cloned().collect();
+	// run-time halves of the two compile-time properties: what the type system
+	// promises only holds if the library's run-time part keeps its side
+	match prop {
+		// data is reachable only under a live hold: the hold must really be there
+		"C15" => v.extend(r.findings.iter().filter(|f| f.prop == "C02").map(|f| Finding { prop: "C15", sig: format!("data-reached-without-a-live-hold|{}", f.sig), ..f.clone() })),
+		// one key per thread, surrendered for the whole of every hold
+		"C14" => v.extend(
+			r.findings
+				.iter()
+				.filter(|f| {
+					(f.prop == "C06" && f.sig.starts_with("second-key"))
+						|| (f.prop == "C03" && (f.sig.starts_with("key-back-while-holding") || f.sig.starts_with("acquire-while-holding") || f.sig.starts_with("key-obtainable-while-holding")))
+				})
+				.map(|f| Finding { prop: "C14", sig: format!("key-usable-during-a-hold|{}", f.sig), ..f.clone() }),
+		),
+		_ => {}
+	}
+	v
+}
+
+/// SEQ and CONC campaigns of `bases` evaluated for `prop` (see `mine`)
+fn runtime_half(ctx: &mut CheckCtx, prop: &'static str, tier: Tier, seq_bases: &[&'static str], conc_base: &'static str) {
+	for base in seq_bases {
+		let (cfg, opts) = seq_profile(base).unwrap();
+		let nontrivial = |_c: &SeqCase, r: &RunResult| has(r, "acquire.") && r.executed_steps >= 3;
+		let e = SeqEval { prop, opts, nontrivial: &nontrivial, extra: None };
+		let n = tier.pick(40_000, 800_000);
+		ctx.search(&format!("runtime-half-seq-histories-of-{base}"), n, 220, |bytes, want| {
+			let case = gen_seq(&mut Src::new(bytes), &cfg);
+			eval_seq_case(&e, &case, want)
+		});
+	}
+	let cfg = conc_profile(conc_base).unwrap_or_default();
+	let nontrivial = |case: &ConcCase, r: &RunResult| conc_nontrivial(conc_base, case, r);
+	let e = ConcEval { prop, nontrivial: &nontrivial, extra: None };
+	let n = tier.pick(25_000, 500_000);
+	ctx.search(&format!("runtime-half-conc-programs-of-{conc_base}"), n, 260, |bytes, want| {
+		let case = gen_conc(&mut Src::new(bytes), &cfg);
+		eval_conc_case(&e, &case, want)
+	});
 }
 
 fn has(r: &RunResult, label_prefix: &str) -> bool {
@@ -1883,11 +1923,15 @@ fn types_check(prop: &'static str, tier: Tier, seed: u64) -> i32 {
 		"the rlib used is the one the check script just rebuilt from /repo's working tree".into(),
 	];
 	ctx.rule = match prop {
-		"C14" => "TYPES: client programs generated from a grammar (lock kind x Poisonable x collection kind x container x escape route K1..K11: key moved/lent to another thread, locking through &ThreadKey, clone/copy/use-after-move, key forgery (struct literal, Keyable impls, sealed path), guard APIs given &mut key, nested scoped calls on one key, key used inside its own closure, private key fields of guards, sending key-holding guards, moving holds out of a collection guard before unlock, key-less holds through unsafe trait methods from safe code). Every case is a pair: a twin that must compile and an offending program that differs only inside the marked region; verdict by rustc against the current tree: twin accepted, offending rejected with every primary error span inside the marked region. Quick: the whole product with the blocking write API; thorough: x every acquiring API (try_lock, read, try_read and their scoped forms). Non-trivial = the twin compiled and the offending program got a verdict; distinct = (family, subject).".to_string(),
-		_ => "TYPES: client programs generated from a grammar (lock kind x Poisonable x collection kind x container x route D1..D8: reference outliving a guard, guard outliving its lock, reference escaping a scoped closure, shared access into an owned collection, unsafe-only entry points from safe code, &mut/by-value access while a guard lives, auto traits). D1-D7 are twin/offending pairs judged by rustc on the marked region. D8 is differential against std: for every position (Mutex, RwLock, Poisonable, every guard and ref type, every collection over owned and borrowed members, LockGuard, PoisonGuard, ...) x payload (i32, Cell, Rc, raw pointer, MutexGuard, Arc<Cell>) x {Send, Sync}, whenever the std counterpart is rejected the happylock type must be rejected too. Quick: the whole product with the blocking write API; thorough: x every acquiring API (try_lock, read, try_read and their scoped forms). Non-trivial = the twin compiled and the offending program got a verdict (for D8: std rejected); distinct = (family, subject).".to_string(),
+		"C14" => "TYPES: client programs generated from a grammar (lock kind x Poisonable x collection kind x container x escape route K1..K11: key moved/lent to another thread, locking through &ThreadKey, clone/copy/use-after-move, key forgery (struct literal, Keyable impls, sealed path), guard APIs given &mut key, nested scoped calls on one key, key used inside its own closure, private key fields of guards, sending key-holding guards, moving holds out of a collection guard before unlock, key-less holds through unsafe trait methods from safe code). Every case is a pair: a twin that must compile and an offending program that differs only inside the marked region; verdict by rustc against the current tree: twin accepted, offending rejected with every primary error span inside the marked region. Quick: the whole product with the blocking write API; thorough: x every acquiring API (try_lock, read, try_read and their scoped forms). Non-trivial = the twin compiled and the offending program got a verdict; distinct = (family, subject). Run-time half: the SEQ histories of C06 and C03 and the CONC programs of C03, read for 'a second key while one is alive' and 'the key is usable while the thread holds a lock' (non-trivial = an acquisition and >= 3 executed steps; CONC as in C03).".to_string(),
+		_ => "TYPES: client programs generated from a grammar (lock kind x Poisonable x collection kind x container x route D1..D8: reference outliving a guard, guard outliving its lock, reference escaping a scoped closure, shared access into an owned collection, unsafe-only entry points from safe code, &mut/by-value access while a guard lives, auto traits). D1-D7 are twin/offending pairs judged by rustc on the marked region. D8 is differential against std: for every position (Mutex, RwLock, Poisonable, every guard and ref type, every collection over owned and borrowed members, LockGuard, PoisonGuard, ...) x payload (i32, Cell, Rc, raw pointer, MutexGuard, Arc<Cell>) x {Send, Sync}, whenever the std counterpart is rejected the happylock type must be rejected too. Quick: the whole product with the blocking write API; thorough: x every acquiring API (try_lock, read, try_read and their scoped forms). Non-trivial = the twin compiled and the offending program got a verdict (for D8: std rejected); distinct = (family, subject). Run-time half: the SEQ histories and CONC programs of C02 (held-at-use, complete holds inside closures, shadow-version continuity, no release of another thread's hold), read as 'data reached without a live hold'.".to_string(),
 	};
 	let quick_n = 320;
 	types_campaign(&mut ctx, prop, tier, quick_n);
+	match prop {
+		"C14" => runtime_half(&mut ctx, prop, tier, &["C06", "C03"], "C03"),
+		_ => runtime_half(&mut ctx, prop, tier, &["C02"], "C02"),
+	}
 	ctx.finish()
 }
 
@@ -2131,7 +2175,10 @@ pub fn seq_profile(prop: &str) -> Option<(SeqCfg, Opts)> {
 			let mut cfg = seq_cfg_general();
 			cfg.max_steps = 14;
 			cfg.w.guard_ops = 12;
-			cfg.w.phantom_hold = 1;
+			cfg.w.phantom_hold = 3;
+			// killed members: an acquisition that unwinds half-way must not touch
+			// the holds of others
+			cfg.w.kill = 1;
 			cfg.w.p_try = 60;
 			let opts = Opts::default();
 			Some((cfg, opts))
